@@ -194,7 +194,7 @@ var props = map[string]*propCfg{
 		DesignRef:   "DESIGN.md §4 C10",
 	},
 	"C18": {
-		Rule:        "Workers built with -race and -tags verif, once with the assembly kernels and once with the portable ones (decimal_pure_go: the race detector sees into them). Per shard (4 shards = 4 different operand/job tables): 35 shared operands (5..6 000 digits, +-0, +-Inf, 1, integers filling their mantissa, values in the top and bottom decade of the exponent range, zeros and an infinity in variables that held finite values) and a table of 520 jobs of 27 kinds: readers of shared operands (Add, Sub, Mul, squaring, Quo incl. 100..200-word divisors, FMA, Sqrt, Cmp, Text, Format, Float64/32, Float, Int, Rat, GobEncode, MarshalText, Set; precisions to 4 000) and writers into the goroutine's own receiver from shared or constant arguments (Parse of decimal and binary literals, gob round trip, SetRat, SetInt, SetFloat64, SetFloat, fmt with zero- and space-padded wide fields, Int of values far longer than their mantissa, the accumulation a.FMA(x, y, a)). Before anything else runs in the process, the first job of every kind is executed by 8 goroutines released together (cold start). Then the table is computed sequentially twice (determinism, getters do not write; operands compared bit for bit incl. the leftover exponent of zeros and infinities). Then, per repetition (4 quick / 60 thorough), four configurations (GOMAXPROCS, goroutines) = (2,4), (4,16), (16,16), (16,64) run the jobs in per-goroutine random order, each goroutine writing only to its own receivers; in every other configuration the verif hooks poison the scratch pool and inject Gosched / 0..50 us sleeps / runtime.GC() (empties the pool) at the pool get/put sites. Oracles: (1) the race detector: any report block is a violation (deduplicated by the outermost frames of the two accesses); (2) every concurrent result must equal the sequential one; (3) operand snapshots before/after. Evidence counts operation intervals from different goroutines that overlapped on a common operand (atomic busy masks recorded at the client boundary), distinct overlapping (kind, kind) pairs, hook calls, injected yields and GC cycles, pool gets, Karatsuba and recursive-division entries. A case = one configuration run; all are non-trivial. Round 6: a large-buffer phase (shared operands of 70 000 .. 1 000 000 digits built from words; Mul, Sqr, Quo, Text, MarshalText, Format, Gob, Cmp, Int run by 4 goroutines, pairs on the same job at the same time: scratch of a megabyte and more, digit buffers beyond 64 KiB); the library's hit counters are plain increments in race builds, so that they are not a synchronisation point at every hook site (an atomic counter hid a race next to the pool sites in two runs out of three). Round 7: a pool-churn phase (16 goroutines, quotients of short values by shared divisors of 8 192 .. 9 000 words: three large scratch buffers per quotient at a high rate) with an ownership table kept by the pool hook - a buffer handed out while it is still out is a violation whether or not a result shows it; the overlap statistics are atomics and are kept only in the delay-injecting configurations.",
+		Rule:        "Workers built with -race and -tags verif, once with the assembly kernels and once with the portable ones (decimal_pure_go: the race detector sees into them). Per shard (4 shards = 4 different operand/job tables): 35 shared operands (5..6 000 digits, +-0, +-Inf, 1, integers filling their mantissa, values in the top and bottom decade of the exponent range, zeros and an infinity in variables that held finite values) and a table of 520 jobs of 27 kinds: readers of shared operands (Add, Sub, Mul, squaring, Quo incl. 100..200-word divisors, FMA, Sqrt, Cmp, Text, Format, Float64/32, Float, Int, Rat, GobEncode, MarshalText, Set; precisions to 4 000) and writers into the goroutine's own receiver from shared or constant arguments (Parse of decimal and binary literals, gob round trip, SetRat, SetInt, SetFloat64, SetFloat, fmt with zero- and space-padded wide fields, Int of values far longer than their mantissa, the accumulation a.FMA(x, y, a)). Before anything else runs in the process, the first job of every kind is executed by 8 goroutines released together (cold start). Then the table is computed sequentially twice (determinism, getters do not write; operands compared bit for bit incl. the leftover exponent of zeros and infinities). Then, per repetition (3 quick / 60 thorough), four configurations (GOMAXPROCS, goroutines) = (2,4), (4,16), (16,16), (16,64) run the jobs in per-goroutine random order, each goroutine writing only to its own receivers; in every other configuration the verif hooks poison the scratch pool and inject Gosched / 0..50 us sleeps / runtime.GC() (empties the pool) at the pool get/put sites. Oracles: (1) the race detector: any report block is a violation (deduplicated by the outermost frames of the two accesses); (2) every concurrent result must equal the sequential one; (3) operand snapshots before/after. Evidence counts operation intervals from different goroutines that overlapped on a common operand (atomic busy masks recorded at the client boundary), distinct overlapping (kind, kind) pairs, hook calls, injected yields and GC cycles, pool gets, Karatsuba and recursive-division entries. A case = one configuration run; all are non-trivial. Round 6: a large-buffer phase (shared operands of 70 000 .. 1 000 000 digits built from words; Mul, Sqr, Quo, Text, MarshalText, Format, Gob, Cmp, Int run by 4 goroutines, pairs on the same job at the same time: scratch of a megabyte and more, digit buffers beyond 64 KiB); the library's hit counters are plain increments in race builds, so that they are not a synchronisation point at every hook site (an atomic counter hid a race next to the pool sites in two runs out of three). Round 7: a pool-churn phase (16 goroutines, quotients of short values by shared divisors of 8 192 .. 9 000 words: three large scratch buffers per quotient at a high rate) with an ownership table kept by the pool hook - a buffer handed out while it is still out is a violation whether or not a result shows it; the overlap statistics are atomics and are kept only in the delay-injecting configurations.",
 		Assumptions: []string{"the race detector only sees the interleavings that occurred: the claim is 'no race on the K overlapping operations observed', not schedule coverage", "the monitor's own state is atomics only; hooks are installed while no goroutine runs"},
 		Floors:      []floor{{"overlapping_operations_on_a_shared_operand", 5000}, {"distinct_overlapping_operation_pairs", 100}, {"concurrent_operations", 100000}, {"hook_calls_at_pool_sites", 10000}, {"injected_gc_cycles", 50}, {"hit_karatsuba", 1000}, {"hit_div_recursive", 100}, {"config/", 64}},
 		Variants: []variant{
